@@ -149,7 +149,7 @@ def check_fault(case):
     k0 = e2.kfull(ref, ())
     s, calls, log, exc, npf = run_seq(variant, phname, seq, fault=fault)
     res.stats["transitions"] += len(calls) + 1
-    kind = "pfunc-raises" if fault == "pfunc" else ("dfunc-raises" if "X" in seq else ("solver-raises" if "H" in seq else "normal"))
+    kind = "pfunc-raises" if fault == "pfunc" else ("dfunc-raises" if "X" in seq else ("dfunc-aborts" if "Y" in seq else ("solver-raises" if "H" in seq else "normal")))
     if kind != "normal" and exc is None:
         res.v(("C17.fault-not-propagated", kind), "seq %s" % seq)
     if kind == "solver-raises" and not isinstance(exc, (ValueError, RuntimeError)):
@@ -188,7 +188,7 @@ def gen_cases(tier):
             yield dict(fam="fault", variant=variant, phases=phname, seq="Z", fault="pfunc")
             for k in range(0, K + 1):
                 for body in itertools.product("cvr", repeat=k):
-                    for end in ("X", "H", "Z"):
+                    for end in ("X", "Y", "H", "Z"):
                         yield dict(fam="fault", variant=variant, phases=phname, seq="".join(body) + end + ("Z" if end == "H" else ""))
 
 
@@ -206,12 +206,12 @@ def main(tier):
         run.map(check_case, gen_cases(tier), chunk=4, family="analyses")
     finally:
         shutil.rmtree(os.path.join(VERIF, ".work"), ignore_errors=True)
-    for c in ("seq2", "pfunc-raises", "dfunc-raises", "solver-raises", "normal"):
+    for c in ("seq2", "pfunc-raises", "dfunc-raises", "dfunc-aborts", "solver-raises", "normal"):
         run.require(c in run.classes, "class %s never observed" % c)
     return run.finish(
         rule="(a,b) 7 systems (chain, fan-out, two sources, 2-input PMux, phases, a 13-component system with 1-D / 2-D tables of every carrier + rails + groups + limits, a 3-input PMux with rails) x "
              "every single analysis and EVERY ordered pair (thorough: every triple of distinct analyses on 3 systems) of 12 analyses (solve, solve with tags/energy/ta, rail_rep, params, limits, phases, tree, "
              "save, plot_interp, make_diag, make_hdiag, batt_life): after each call K_full, component identities and the argument objects are unchanged and the last result equals its result on a fresh build; "
-             "(c) batt_life fault enumeration: pfunc raising; for every answer sequence of length 0..%d the dfunc raising at the last call (= every k), and a battery state that makes the solver raise, "
+             "(c) batt_life fault enumeration: pfunc raising; for every answer sequence of length 0..%d the dfunc raising an Exception / a BaseException (KeyboardInterrupt-like) at the last call (= every k), and a battery state that makes the solver raise, "
              "x 3 phase sets x 2 battery placements: params() and K_full identical to an untouched system. non-trivial = pairs/triples and faults after >= 1 successful step." % (3 if tier == "quick" else 5),
         assumptions=["K_full covers every attribute the System methods read", "image back-ends (PNG) not exercised; diagrams rendered as DOT text"])
